@@ -4,6 +4,7 @@
 package main
 
 import (
+	"runtime/debug"
 	"strconv"
 	"time"
 	"encoding/json"
@@ -72,6 +73,16 @@ func main() {
 		emit()
 		os.Exit(0)
 	})
-	f(ctx)
+	func() {
+		// a panic that escapes the driver (library code called outside a recovering wrapper): still a result, with
+		// the panic, its stack and the last completed case as the failing input
+		defer func() {
+			if r := recover(); r != nil {
+				ctx.Fail("property", "no_panic", fmt.Sprintf("the driver was stopped by a panic after case: %s\n%s", ctx.LastCase(), h.Trunc(string(debug.Stack()), 6000)),
+					fmt.Sprintf("panic: %v", r), "no panic")
+			}
+		}()
+		f(ctx)
+	}()
 	emit()
 }
